@@ -479,20 +479,29 @@ _public_ int m_mod_register(const char *name, m_mod_t **mod_ref, const m_mod_hoo
             M_DEBUG("Module with same name already registered in context.");
             return -EEXIST;
         }
+        /*
+         * The name we were given may well be the replaced module's own (eg: m_mod_name(old)):
+         * keep that module alive until the name has been taken over.
+         */
+        m_mem_ref(old_mod);
         ret = mod_deregister(&old_mod, false);
-        if (ret != 0) {
-            return ret;
-        }
         /* on_stop() of the replaced module may have deregistered the context */
-        if (m_ctx() != c) {
-            return -EPIPE;
+        if (ret == 0 && m_ctx() != c) {
+            ret = -EPIPE;
+        }
+        if (ret != 0) {
+            m_mem_unref(old_mod);
+            return ret;
         }
     }
 
     M_DEBUG("Registering module '%s'.\n", name);
     
     m_mod_t *mod = m_mem_new(sizeof(m_mod_t), module_dtor);
-    M_ALLOC_ASSERT(mod);
+    if (!mod) {
+        m_mem_unref(old_mod);
+        return -ENOMEM;
+    }
 
     mod->ctx = m_mem_ref(c);
     
@@ -506,6 +515,7 @@ _public_ int m_mod_register(const char *name, m_mod_t **mod_ref, const m_mod_hoo
     /* Let us gladly jump out with break on error */
     do {
         mod->name = flags & M_MOD_NAME_DUP ? mem_strdup(name) : name;
+        old_mod = m_mem_unref(old_mod);
         
         // NULL hook means register a runtime loaded module
         if (hook == NULL) {
